@@ -668,6 +668,8 @@ pub struct CfgSites {
     pub intern_uses: Vec<(String, String, String)>,
     /// the statements of `Vm::new_gc_obj_string`, one normalised token string each
     pub intern_glue: Vec<String>,
+    /// other glue functions as written (hook statements stripped): (lean name, statements)
+    pub glue_text: Vec<(String, Vec<String>)>,
     /// every call of `ObjString::new`: (file, enclosing fn)
     pub obj_string_ctors: Vec<(String, String)>,
     pub intern_methods: Vec<String>,
@@ -973,6 +975,7 @@ impl SiteSink for CfgSink {
 pub fn cfg_sites(srcs: &[Src]) -> R<CfgSites> {
     let mut out = CfgSites {
         intern_glue: Vec::new(),
+        glue_text: Vec::new(),
         obj_string_ctors: Vec::new(),
         collect_calls: Vec::new(),
         chunk_writes: Vec::new(),
@@ -1020,19 +1023,30 @@ pub fn cfg_sites(srcs: &[Src]) -> R<CfgSites> {
         return unsup("vm.rs", "<file>", "not found");
     }
     for s in srcs {
-        let mut g = GlueVisitor { file: s.name.clone(), fns: Vec::new(), glue: Vec::new(), ctors: Vec::new(), skip: 0 };
+        let mut g = GlueVisitor { file: s.name.clone(), fns: Vec::new(), glue: Vec::new(), texts: Vec::new(), ctors: Vec::new(), skip: 0 };
         syn::visit::Visit::visit_file(&mut g, &s.ast);
         out.intern_glue.extend(g.glue);
+        out.glue_text.extend(g.texts);
         out.obj_string_ctors.extend(g.ctors);
     }
     if out.intern_glue.is_empty() {
         return unsup("vm.rs", "Vm::new_gc_obj_string", "not found");
     }
+    for want in GLUE_FNS {
+        if !out.glue_text.iter().any(|(n, _)| n == &want.replace("::", "_")) {
+            return unsup("vm.rs", want, "not found");
+        }
+    }
+    out.glue_text.sort();
     Ok(out)
 }
 
 /// Statements of `Vm::new_gc_obj_string` and the call sites of `ObjString::new` (items under `cfg(test)` / `cfg(feature = "verif_hooks")` skipped).
+/// Functions of vm.rs that the hand models of modules (C14) and of interpreter re-use (C15) transcribe and that are not translated.
+const GLUE_FNS: &[&str] = &["Vm::start_import_impl", "Vm::finish_import_impl", "Vm::module", "Vm::reset", "Vm::reset_stack", "Vm::execute"];
+
 struct GlueVisitor {
+    texts: Vec<(String, Vec<String>)>,
     file: String,
     fns: Vec<String>,
     glue: Vec<String>,
@@ -1084,6 +1098,16 @@ impl<'ast> syn::visit::Visit<'ast> for GlueVisitor {
             for st in &f.block.stmts {
                 self.glue.push(quote::ToTokens::to_token_stream(st).to_string());
             }
+        }
+        if self.file == "vm.rs" && GLUE_FNS.contains(&name.as_str()) {
+            let mut v = vec![quote::ToTokens::to_token_stream(&f.sig).to_string()];
+            for st in &f.block.stmts {
+                let t = quote::ToTokens::to_token_stream(st).to_string();
+                if !t.starts_with("# [cfg (feature = \"verif_hooks\")]") {
+                    v.push(t);
+                }
+            }
+            self.texts.push((name.replace("::", "_"), v));
         }
         self.fns.push(name);
         syn::visit::visit_impl_item_fn(self, f);
@@ -1207,6 +1231,11 @@ impl CfgSites {
         l.comment("");
         l.comment("`Vm::new_gc_obj_string` as written: its signature, then each statement of its body (token strings).");
         l.def_list("internGlue", "List String", &self.intern_glue.iter().map(|m| lean_str(m)).collect::<Vec<_>>());
+        for (n, v) in &self.glue_text {
+            l.comment("");
+            l.comment(&format!("`{}` of vm.rs as written: signature, then each statement (statements under cfg(verif_hooks) stripped).", n.replacen('_', "::", 1)));
+            l.def_list(&format!("glue_{}", n), "List String", &v.iter().map(|m| lean_str(m)).collect::<Vec<_>>());
+        }
         l.comment("");
         l.comment("Every call of `ObjString::new` (verif_hooks / test items stripped): (file, enclosing fn).");
         l.def_list("objStringCtors", "List (String × String)", &self.obj_string_ctors.iter().map(|(f, w)| format!("({}, {})", lean_str(f), lean_str(w))).collect::<Vec<_>>());
